@@ -6,6 +6,7 @@ CONSTANTS
   MaxOffer = 2
   MaxLocal = 1
   AllowSelfStop = FALSE
+  AllowManual = FALSE
   ExactOffers = TRUE
   EmitScripts = TRUE
 CONSTRAINT Bound
